@@ -596,7 +596,7 @@ class Gen:
         return out
 
     def model(self, n_states=None, n_params=None, n_inters=None, n_comps=None, shape=None,
-              p_unused=0.2, decorate=False):
+              p_unused=0.2, decorate=False, self_dep=0.0):
         rng = self.rng
         n_states = n_states or rng.choice([1, 2, 2, 3, 3, 4, 5])
         n_params = rng.choice([0, 1, 2, 3, 4]) if n_params is None else n_params
@@ -647,6 +647,19 @@ class Gen:
             e = self.expr(pool)
             if live and rng.random() < 0.7 and not any(v in live for v in variables(e)):
                 e = ("bin", "+", e, ("var", rng.choice(live)))
+            if rng.random() < self_dep and s not in variables(e):
+                # the rate depends on its own state (what the Rush-Larsen schemes linearise)
+                k = rng.choice([("num", "0.5"), ("num", "2"), ("var", rng.choice(avail)) if avail else ("num", "3")])
+                other = ("var", rng.choice(avail)) if avail else ("num", "3")
+                term = rng.choice([("bin", "*", k, ("var", s)), ("bin", "/", ("var", s), self.safe_den(pool, 2)),
+                                   ("bin", "*", self.expr(pool, 2), ("var", s)), ("fn", "sin", ("var", s)),
+                                   ("bin", "*", ("var", s), ("var", s)),
+                                   # a product of a factor that can vanish and a reciprocal (the shape the
+                                   # "certainly non-zero" shortcut of the Rush-Larsen schemes looks at)
+                                   ("bin", "/", ("bin", "*", ("var", s), ("var", s)), other),
+                                   ("bin", "/", ("bin", "*", ("var", s), other), other),
+                                   ("bin", "/", ("var", s), other)])
+                e = ("bin", rng.choice("+-"), e, term)
             lines[comp_of[s]].append({"name": f"d{s}_dt", "expr": e, "comment": None})
         blocks = []
         for c in comps:
